@@ -37,7 +37,8 @@ BASES = ["work/p", "work/q"]
 ATTIC = ["at/1", "at/../at/1", "./at/2", "at/2"]
 JENKINS = ["j1", "J2"]
 JOBS = ["job-a", "job-b"]
-VPOOL = [b"h1", b"\x00\x01\xfe" * 4, [b"i1", b"i2"], (b"x", None), {"k": b"v", "l": [1, 2]}, "text", b"", 7]
+VPOOL = [b"h1", b"\x00\x01\xfe" * 4, [b"i1", b"i2"], (b"x", None), {"k": b"v", "l": [1, 2]}, "text", b"", 7,
+         {"k": b"w", "l": [1, 2]}, {"k": b"v", "l": [1, 2], "sub": b"d"}]
 STORAGE = ["stor/1", "w/x", "a"]
 _CONFIGS = None
 
@@ -137,6 +138,29 @@ API = {
     "SetBuildState": ("V", lambda s, v: s.setBuildState(v), "unit"),
     "GetBuildState": ("", lambda s: s.getBuildState(), "val"),
 }
+_HELD = {}
+
+
+def _resubmit(kind, s, k, v, setter):
+    """The builder keeps ONE dict per checkout step (per layer, for the build state), changes it in place and hands
+    the same object to the setter after every change (builder.py: oldCheckoutState). Do the same whenever the value
+    handed over last time and the new one are both dicts: same identity, new content. Every such call must save."""
+    import copy as _copy
+    key = (id(s), kind, k)
+    old = _HELD.get(key)
+    if isinstance(old, dict) and isinstance(v, dict):
+        old.clear()
+        old.update(_copy.deepcopy(v))
+        obj = old
+    else:
+        obj = _copy.deepcopy(v)
+    _HELD[key] = obj
+    setter(obj)
+
+
+API["SetDir"] = ("KV", lambda s, k, v: _resubmit("dir", s, k, v, lambda o: s.setDirectoryState(k, o)), "unit")
+API["SetLayer"] = ("KV", lambda s, k, v: _resubmit("layer", s, k, v, lambda o: s.setLayerState(k, o)), "unit")
+API["SetBuildState"] = ("V", lambda s, v: _resubmit("build", s, None, v, lambda o: s.setBuildState(o)), "unit")
 MUTATORS = [n for n, (_, _, k) in API.items() if k in ("unit", "path", "jpath")]
 GETTERS = [n for n in API if n not in MUTATORS]
 
@@ -929,7 +953,28 @@ CORE_MUT = ["SetResult", "SetInputs", "DelInputs", "SetDir", "DelDir", "SetVaria
 JENK_MUT = ["AddJenkins", "DelJenkins", "JenkinsByNameDir", "SetJenkinsConfig", "AddJenkinsJob", "DelJenkinsJob", "SetJenkinsJob"]
 
 
+DICT_VALUES = [i for i, v in enumerate(VPOOL) if isinstance(v, dict)]
+_LAST_DICT_SET = {}
+
+
 def gen_call(rng, jenk):
+    """one API call; after a setter that took a dict, the same setter is often called again for the same key with
+    another dict (the builder's loop over the SCMs of a checkout: one dict object changed in place and re-submitted)"""
+    last = _LAST_DICT_SET.get(id(rng))
+    if last is not None and rng.random() < 0.6:
+        n, key, v = last
+        v2 = rng.choice([i for i in DICT_VALUES if i != v])
+        _LAST_DICT_SET[id(rng)] = (n, key, v2)
+        return ("api", n) + tuple(key) + (v2,)
+    c = gen_call0(rng, jenk)
+    if c[1] in ("SetDir", "SetLayer", "SetBuildState") and c[-1] in DICT_VALUES:
+        _LAST_DICT_SET[id(rng)] = (c[1], c[2:-1], c[-1])
+    else:
+        _LAST_DICT_SET.pop(id(rng), None)
+    return c
+
+
+def gen_call0(rng, jenk):
     r = rng.random()
     if r < 0.70:
         n = rng.choice(CORE_MUT)
